@@ -317,6 +317,7 @@ Theorem source_tie :
   src_dosave_order = true /\ src_commit_order = true /\ src_recover_order = true /\
   src_remove_log_order = true /\ src_save_raft_state_before_process_snapshot = true /\
   src_snapshot_update_not_fast_applied = true /\
-  src_can_stream_guard = true /\ src_ready_to_stream = true /\ src_concurrent_save_syncs = true.
+  src_can_stream_guard = true /\ src_ready_to_stream = true /\ src_concurrent_save_syncs = true /\
+  src_membership_get_copies = true.
 Proof. exact source_tie_proved. Qed.
 Print Assumptions source_tie.
